@@ -1,8 +1,9 @@
 #!/bin/bash
-# usage: seeded_all.sh <PROP> [budget]  -- confirm + detect both mutations of an agent's worktree
-P=$1; B=${2:-50}
-for x in A B; do
+# usage: seeded_all.sh <PROP> [budget] [worktree-prefix] [letters]  -- confirm + detect the mutations of an agent's worktree
+P=$1; B=${2:-50}; W=${3:-/tmp/wt_}; L=${4:-"A B"}
+for x in $L; do
+  [ -f $W$P/_seeded/mutation$x.diff ] || continue
   echo "== $P mutation $x"
-  /venv/bin/python /verif/tools/seeded.py confirm /tmp/wt_$P /tmp/wt_$P/_seeded/mutation$x.diff /tmp/wt_$P/_seeded/demo$x.py | tr '\n' ' ' | cut -c1-330; echo
-  /venv/bin/python /verif/tools/seeded.py detect $P /tmp/wt_$P/_seeded/mutation$x.diff $B | tail -4
+  /venv/bin/python /verif/tools/seeded.py confirm $W$P $W$P/_seeded/mutation$x.diff $W$P/_seeded/demo$x.py | tr '\n' ' ' | cut -c1-260; echo
+  /venv/bin/python /verif/tools/seeded.py detect $P $W$P/_seeded/mutation$x.diff $B | tail -3
 done
